@@ -86,3 +86,17 @@ func TestC01_C13_ImportedMacroRecursion(t *testing.T) {
 		t.Errorf("want depth error, got %v", err)
 	}
 }
+
+// C01 "contexts containing nil pointers": a nil *pongo2.Value as a context entry or as a function's result.
+func TestC01_NilValuePointer(t *testing.T) {
+	ctx := pongo2.Context{
+		"v": (*pongo2.Value)(nil),
+		"f": func() *pongo2.Value { return nil },
+	}
+	for src, want := range map[string]string{`[{{ v }}]`: "[]", `[{{ f() }}]`: "[]", `[{% if v %}y{% else %}n{% endif %}]`: "[n]", `[{{ v|default:"d" }}]`: "[d]", `[{{ f()|length }}]`: "[0]"} {
+		out, err := render(t, newSet(nil), src, ctx)
+		if err != nil || out != want {
+			t.Errorf("%s => %q %v; want %q", src, out, err, want)
+		}
+	}
+}
